@@ -21,7 +21,7 @@ FAMS = gen.ALL_FAMILIES
 
 def floors(tier):
     return {"states_checked": 3000, "results_checked": 500, "restarts_checked": 100, "accepted_not_last_trial": 10, "scaled_runs": 30, "runs_with_reused_gradient_buffer": 80,
-            "callback_states_reinspected_after_the_run": 3000, "runs_from_a_start_beyond_unit_step_resolution": 30, "runs_that_could_not_leave_x0": 5, "__nontrivial__": 40}
+            "callback_states_reinspected_after_the_run": 3000, "runs_from_a_start_beyond_unit_step_resolution": 30, "runs_that_could_not_leave_x0": 5, "results_with_non_finite_gradient": 10, "__nontrivial__": 40}
 
 
 def cases(tier, seed):
@@ -50,6 +50,11 @@ def cases(tier, seed):
             ps["start_scale"] = float(gen.pick(rng, [1e17, 1e18, 1e20]))
             cfg["jac"] = "callable"
             cfg["scaler"] = float(np.exp(rng.uniform(np.log(1e-3), np.log(1e3))))
+        if i % 20 == 7:
+            # gradient +inf at the solution (variables ending on the bound 0 of a square-root term)
+            ps = gen.rand_spec(rng, ("sqrt_floor",), nmax=6, boxes=("none", "upper"), starts=("interior",))
+            cfg["jac"] = "callable"
+            cfg["maxiter"] = int(gen.pick(rng, [4, 8, 30]))
         if cfg["jac"] == "callable" and rng.random() < 0.3:
             cfg["reuse_grad_buffer"] = True  # the user's gradient fills and returns one preallocated array
         yield {"problem": ps, "cfg": cfg, "chain": chain}
@@ -179,6 +184,10 @@ def run(spec):
             break
         if cfg.get("reuse_grad_buffer"):
             out.count("runs_with_reused_gradient_buffer")
+        if P.spec["family"] == "sqrt_floor":
+            out.count("runs_on_objective_with_infinite_gradient_at_a_bound")
+            if tr.snap is not None and not np.all(np.isfinite(np.asarray(tr.snap["jac"], dtype=float))):
+                out.count("results_with_non_finite_gradient")
         if P.spec.get("start_scale"):
             out.count("runs_from_a_start_beyond_unit_step_resolution")
             if np.array_equal(tr.snap["x"], tr.evals[0][1]):
